@@ -191,3 +191,10 @@ Fixpoint retain_legal (b : Board) (ms : list Ply) : list Ply * option Board :=
     end
   end.
 Definition get_legal_moves_st (b : Board) : list Ply * option Board := retain_legal b (get_all_moves b).
+
+(* the promotion suffix of the notation *)
+Definition promo_letter (p : option Kind) : string :=
+  match p with
+  | Some (Queen, _) => "q" | Some (Rook, _) => "r" | Some (Bishop, _) => "b" | Some (Knight, _) => "n"
+  | _ => ""
+  end%string.
